@@ -337,7 +337,16 @@ func c08Pass(c *core.Ctx, incEdited bool) {
 			// swept as it is, without a new analysis
 			discardSwept = true
 		} else {
-			s.DidOpen(mainURI, text)
+			if incEdited {
+				// the included file's unsaved edit arrives after this document's
+				// analysis (which sees the earlier text, five lines longer): requests
+				// must still see the included file as the editor shows it now
+				s.DidChangeFull(incURI, incDisk, 3)
+				s.DidOpen(mainURI, text)
+				s.DidChangeFull(incURI, incRd.Text, 4)
+			} else {
+				s.DidOpen(mainURI, text)
+			}
 		}
 		bufs := map[string]*refbuf.Buffer{mainURI: refbuf.New(text), incURI: refbuf.New(incRd.Text)}
 		rds := map[string]*gmodel.Rendered{mainURI: rd, incURI: incRd}
